@@ -1702,6 +1702,13 @@ impl Connection {
             _ => 2,
         };
         self.spaces[space].loss_probes = self.spaces[space].loss_probes.saturating_add(count);
+        if space == SpaceId::Data && self.spaces[SpaceId::Handshake].crypto.is_some() {
+            // The peer might not have 1-RTT keys yet, e.g. because our final handshake flight is
+            // stuck behind a congestion window filled with unacknowledged 0-RTT packets. Probe
+            // the handshake space as well (RFC 9002 §6.2.4), or neither side can make progress.
+            let hs = &mut self.spaces[SpaceId::Handshake];
+            hs.loss_probes = hs.loss_probes.saturating_add(1);
+        }
         self.pto_count = self.pto_count.saturating_add(1);
         self.set_loss_detection_timer(now);
     }
